@@ -126,10 +126,14 @@ def station_int_case():
                      "given as floats")
 
 
-def mk_station(env, v, mask=None):
-    """real create_station (degrees in, as the public API demands)"""
+def mk_station(env, v, mask=None, recreated=False):
+    """real create_station (degrees in, as the public API demands); recreated: a station of the same name, somewhere else,
+    was created before (a script run twice in one session, a station whose surveyed coordinates are updated)"""
     st = patch_earth(env, v)
     name = f"vf{next(_counter)}"
+    if recreated:
+        name = "vfsame"
+        st.create_station(name, (10.0, 20.0, 30.0))
     if env.symbolic:
         deg = lambda x: x * 180 / PI
         sta = st.create_station(name, (deg(v["lat"]), deg(v["lon"]), v["alt"]), mask=mask)
@@ -154,7 +158,7 @@ def orient_case():
 TGT = ["x", "y", "z", "vx", "vy", "vz"]
 
 
-def topo_case():
+def topo_case(recreated=False):
     """target state in ITRF -> station frame (real Frame.transform) -> spherical: range, azimuth = -theta, elevation, range-rate"""
     def delta(env, v):
         st = patch_earth(env, v)
@@ -162,7 +166,7 @@ def topo_case():
         return p
 
     def run(env, v):
-        sta = mk_station(env, v)
+        sta = mk_station(env, v, recreated=recreated)
         fr = env.mod("beyond.frames.frames")
         ms = env.mod("beyond.utils.measures")
         if env.symbolic:
@@ -219,9 +223,9 @@ def topo_case():
         rng = env.sqrt(dot(d, d))
         hor = env.sqrt(E * E + Nn * Nn)
         return [rng, hor, hor / rng]
-    return Case("topocentric", GEO_IN + [(k, "real") for k in TGT], run, ref, pre=pre, timeout=120, tol=1e-6, abs_tol=1e-4,
-                hints=hints,
-                desc="range / azimuth (= -theta) / elevation / range-rate of any Earth-fixed target seen from a created station equal "
+    return Case("topocentric" + ("/recreated" if recreated else ""), GEO_IN + [(k, "real") for k in TGT], run, ref, pre=pre, timeout=120,
+                tol=1e-6, abs_tol=1e-4, hints=hints,
+                desc=("a station created under the name of an earlier station located elsewhere: " if recreated else "") + "range / azimuth (= -theta) / elevation / range-rate of any Earth-fixed target seen from a created station equal "
                      "the independent WGS-84 ENU computation; Range counts once per leg; Azimut/Elevation/Doppler measures are theta, phi, r_dot")
 
 
@@ -304,7 +308,7 @@ def measures_case(n, closed):
 
 
 def all_cases(tier):
-    cs = [geodetic_case(), orient_case(), topo_case(), station_int_case()]
+    cs = [geodetic_case(), orient_case(), topo_case(), topo_case(True), station_int_case()]
     for n in range(2, 6 if tier == "quick" else 8):
         cs.append(measures_case(n, False))
         if n > 2:
